@@ -500,7 +500,7 @@ impl Subject for Subject12 {
 
 fn depth_of(cli: &Cli) -> usize {
     // every world costs several RocksDB opens (each spawning ~15 threads per column family)
-    cli.tier.pick(2, 4)
+    cli.tier.pick(2, 3)
 }
 
 fn subjects(cli: &Cli) -> Vec<Subject12> {
